@@ -208,7 +208,7 @@ def run_unit(unit, progress):
         prog = gen.generate(cs, PROFILE_N if na else PROFILE_A)
         faulty = False
         if i % 12 == 1:
-            prog = gen.revisit_program(random.Random(cs ^ 0x7E715))
+            prog = gen.revisit_program(random.Random(cs ^ 0x7E715), nac=(i % 24 == 13))
             inc("revisit_programs")
         if i % 12 == 10:
             prog = lease_program(random.Random(cs ^ 0x1EA5E))
